@@ -172,3 +172,112 @@ pub fn build_case(case: &Value, env: Arc<Environment>) -> EvalCase {
 
     EvalCase { problem, ctx, job, tour_jobs, dims }
 }
+
+pub struct MultiCase {
+    pub problem: Arc<Problem>,
+    pub ctx: InsertionContext,
+    /// candidate jobs, listed in `unassigned` with an unknown reason
+    pub cands: Vec<Job>,
+}
+
+fn vehicle_from(id: &str, veh: &Value, cap: &[i64], costs: &[i64]) -> Vehicle {
+    let dims = cap.len();
+    let mut detail = VehicleDetailBuilder::default()
+        .set_start_location(veh["start"].as_u64().unwrap() as usize)
+        .set_start_time(veh["earliest"].as_i64().unwrap() as f64);
+    detail = match veh["latest"].as_i64() {
+        Some(l) => detail.set_start_time_latest(l as f64),
+        None => detail.set_start_time_latest(f64::MAX),
+    };
+    if let Some(end) = veh["end"].as_array() {
+        detail = detail.set_end_location(end[0].as_u64().unwrap() as usize).set_end_time(end[1].as_i64().unwrap() as f64);
+    }
+    let mut vb = VehicleBuilder::default().id(id).add_detail(detail.build().unwrap()).set_distance_cost(costs[1] as f64).set_duration_cost(costs[2] as f64);
+    vb = if dims <= 1 { vb.capacity(SingleDimLoad::new(cap[0] as i32)) } else { vb.capacity(MultiDimLoad::new(cap.iter().map(|v| *v as i32).collect())) };
+    let mut vehicle = vb.build().unwrap();
+    vehicle.costs.fixed = costs[0] as f64;
+    vehicle
+}
+
+/// several vehicles with their tours (`routes`: [{veh, tour, cap, costs}]) and several unassigned
+/// candidate jobs (`cands`); routes with an empty tour stay in the registry
+pub fn build_multi_case(case: &Value, env: Arc<Environment>) -> MultiCase {
+    let durations: Vec<f64> = i64s(&case["dur"]).into_iter().map(|x| x as f64).collect();
+    let distances: Vec<f64> = i64s(&case["dist"]).into_iter().map(|x| x as f64).collect();
+    let transport = create_matrix_transport_cost(vec![MatrixData::new(0, None, durations, distances)]).unwrap();
+    let routes = case["routes"].as_array().unwrap();
+    let dims = i64s(&routes[0]["cap"]).len();
+
+    let mut jobs: Vec<Job> = vec![];
+    let mut tour_jobs: Vec<Vec<Job>> = vec![];
+    for (ri, r) in routes.iter().enumerate() {
+        let mut tj = vec![];
+        for (i, a) in r["tour"].as_array().unwrap().iter().enumerate() {
+            let places = serde_json::json!([{"loc": a["loc"], "dur": a["dur"], "tws": [[a["s"], a["e"]]]}]);
+            let job = Job::Single(Arc::new(single_from(&format!("r{ri}t{i}"), &places, &a["dem"], dims)));
+            tj.push(job.clone());
+            jobs.push(job);
+        }
+        tour_jobs.push(tj);
+    }
+    let cands: Vec<Job> = case["cands"]
+        .as_array()
+        .unwrap()
+        .iter()
+        .enumerate()
+        .map(|(k, j)| Job::Single(Arc::new(single_from(&format!("x{k}"), &j["places"], &j["dem"], dims))))
+        .collect();
+    jobs.extend(cands.iter().cloned());
+
+    let vehicles: Vec<Vehicle> = routes
+        .iter()
+        .enumerate()
+        .map(|(ri, r)| vehicle_from(&format!("v{ri}"), &r["veh"], &i64s(&r["cap"]), &i64s(&r["costs"])))
+        .collect();
+    let goal = build_goal(transport.clone(), case["obj"].as_str().unwrap_or("distance"), dims, vec![]);
+    let problem = Arc::new(
+        ProblemBuilder::default()
+            .add_jobs(jobs.into_iter())
+            .add_vehicles(vehicles.into_iter())
+            .with_goal(goal)
+            .with_transport_cost(transport)
+            .build()
+            .unwrap(),
+    );
+
+    let mut ctx = InsertionContext::new(problem.clone(), env);
+    for (ri, r) in routes.iter().enumerate() {
+        if tour_jobs[ri].is_empty() {
+            continue;
+        }
+        let actor = problem
+            .fleet
+            .actors
+            .iter()
+            .find(|a| a.vehicle.dimens.get_vehicle_id().map(|s| s.as_str()) == Some(format!("v{ri}").as_str()))
+            .unwrap()
+            .clone();
+        let mut route_ctx = ctx.solution.registry.get_route(&actor).expect("route for actor");
+        for (a, job) in r["tour"].as_array().unwrap().iter().zip(tour_jobs[ri].iter()) {
+            let mut act = Activity::new_with_job(job.to_single().clone());
+            act.place = ActPlace {
+                idx: 0,
+                location: a["loc"].as_u64().unwrap() as usize,
+                duration: a["dur"].as_i64().unwrap() as f64,
+                time: TimeWindow::new(a["s"].as_i64().unwrap() as f64, a["e"].as_i64().unwrap() as f64),
+            };
+            route_ctx.route_mut().tour.insert_last(act);
+        }
+        let dep = r["veh"]["dep"].as_i64().unwrap() as f64;
+        problem.goal.accept_route_state(&mut route_ctx);
+        update_route_departure(&mut route_ctx, problem.activity.as_ref(), problem.transport.as_ref(), dep);
+        problem.goal.accept_route_state(&mut route_ctx);
+        ctx.solution.routes.push(route_ctx);
+    }
+    let all_tour_jobs: Vec<Job> = tour_jobs.into_iter().flatten().collect();
+    ctx.solution.required.retain(|j| !all_tour_jobs.contains(j));
+    ctx.solution.unassigned.retain(|j, _| !all_tour_jobs.contains(j));
+    problem.goal.accept_solution_state(&mut ctx.solution);
+
+    MultiCase { problem, ctx, cands }
+}
